@@ -531,16 +531,19 @@ def run_one(ops, workdir, tag="one", binary=None, impl_env=None):
     return run_sequences([("one", ops)], workdir, tag, binary=binary, impl_env=impl_env)[0]
 
 
-def ddmin(ops, fails, max_tests=400):
-    """Delta-debugging over an op list.  `fails(ops) -> bool`."""
+def ddmin(ops, fails, max_tests=400, budget=240.0):
+    """Delta-debugging over an op list.  `fails(ops) -> bool`.  Stops after `max_tests` candidates or `budget` seconds (every
+    candidate is re-run on the real code; a sequence that wedges costs a watchdog each time) and returns the smallest failing
+    list found so far."""
     tests = [0]
+    t0 = time.time()
 
     def t(x):
         tests[0] += 1
         return fails(x)
 
     n = 2
-    while len(ops) >= 2 and tests[0] < max_tests:
+    while len(ops) >= 2 and tests[0] < max_tests and time.time() - t0 < budget:
         chunk = max(1, len(ops) // n)
         reduced = False
         for i in range(0, len(ops), chunk):
